@@ -100,6 +100,55 @@ def nested_mutate(n: Int, d: Int): Int
   bump.() + t
 end
 
+def *gen_acc(n: Int, d: Int): Int
+  i := 0
+  acc := 0
+  while i < n
+    r := deep(d + i, 0)
+    acc = acc + r + i
+    i = i + 1
+    yield acc
+  end
+  acc * 2
+end
+
+def drain_acc(n: Int, d: Int): Int
+  g := gen_acc(n, d)
+  s := 0
+  for v in g
+    s = s * 3 + v
+  end
+  s
+end
+
+def drain_nested(n: Int, d: Int): Int
+  return drain_acc(2, d) if n == 0
+  g := gen_acc(3, d)
+  a := try g.next
+  r := drain_nested(n - 1, d + 7)
+  b := try g.next
+  c := try g.next
+  a + b * 2 + c * 3 + r
+end
+
+async def leafk(n: Int): Int
+  n * 2 + 1
+end
+
+async def aw_acc(n: Int, d: Int): Int
+  acc := 0
+  i := 0
+  while i < n
+    p := leafk(i)
+    r := deep(d + i, 0)
+    acc = acc + r
+    v := 100 + (await p)
+    acc = acc * 2 + v
+    i = i + 1
+  end
+  acc
+end
+
 async def aw(n: Int): Int
   return n if n < 2
   a := aw(n - 1)
@@ -123,12 +172,30 @@ end
 `
 
 func genKnobProgram(r *Rand) (string, []string) {
+	if r.Chance(0.25) {
+		// the generated plain / generator / async bodies of E-BODY: deterministic programs
+		// whose frames are saved and restored around every yield and await
+		bp := genBodyProgram(r, r.Range(1, 3))
+		return bp.Src, []string{"bodies"}
+	}
 	var b strings.Builder
 	b.WriteString(knobPrelude)
 	var frags []string
 	n := r.Range(2, 5)
 	for i := 0; i < n; i++ {
-		switch k := r.Intn(10); k {
+		switch k := r.Intn(13); k {
+		case 10:
+			d := Pick(r, []int{2, 30, 150, 400})
+			fmt.Fprintf(&b, "println \"genacc=${drain_acc(%d, %d)}\"\n", r.Range(1, 6), d)
+			frags = append(frags, fmt.Sprintf("genacc%d", d))
+		case 11:
+			d := Pick(r, []int{2, 30, 150})
+			fmt.Fprintf(&b, "println \"gennest=${drain_nested(%d, %d)}\"\n", r.Range(1, 8), d)
+			frags = append(frags, fmt.Sprintf("gennested%d", d))
+		case 12:
+			d := Pick(r, []int{2, 30, 150, 400})
+			fmt.Fprintf(&b, "pa%d := aw_acc(%d, %d)\npb%d := aw_acc(%d, %d)\nprintln \"awacc=${await pa%d} ${await pb%d}\"\n", i, r.Range(1, 5), d, i, r.Range(1, 5), d+3, i, i)
+			frags = append(frags, fmt.Sprintf("awacc%d", d))
 		case 8:
 			d := Pick(r, []int{3, 40, 200, 450})
 			fmt.Fprintf(&b, "println \"mut=${mutate_after(%d, %d)}\"\n", d, r.Intn(9))
@@ -205,8 +272,12 @@ func (*c10Engine) Generate(seed uint64, tier string) *Case {
 	p.Presize = Pick(r, []int{0, 1, 128, 4096})
 	if r.Chance(0.5) {
 		n := r.Range(1, 5)
+		span := 3000
+		if len(frags) == 1 && frags[0] == "bodies" {
+			span = 500
+		}
 		for i := 0; i < n; i++ {
-			p.ForceGrow = append(p.ForceGrow, r.Intn(3000))
+			p.ForceGrow = append(p.ForceGrow, r.Intn(span))
 		}
 	}
 	b, _ := json.Marshal(&p)
